@@ -197,6 +197,10 @@ def register(M):
         return IMPLIES(exists([x], Px), exists([m], AND(Pm, forall([w], IMPLIES(Pw, Z(km) <= Z(kw_))))))
     B['least_exists'] = b_least_exists
 
+    def b_is_ndarray(args, kw, st, node):
+        return isinstance(st.deref(args[0]), SArr)
+    B['is_ndarray'] = b_is_ndarray
+
     def b_independent(args, kw, st, node):
         a, b = args
         if isinstance(a, Ref) and isinstance(b, Ref):
